@@ -6,7 +6,7 @@ prove      props/C13.v over model/Placeholder.v (generic in the tables, instanti
 correspond the extracted model (run_c13) against python-pptx on every layout of every .pptx
            under /repo and on generated populations of the master, a layout and the notes
            master of the default template, over operation histories (add_slide repeatedly,
-           shapes.clone_placeholder on slides that already hold shapes, notes_slide, geometry setters on slide / layout / master / notes, xfrm removal,
+           shapes.clone_placeholder on slides that already hold shapes, notes_slide, geometry setters on slide / layout / master / notes / notes master (first assignments to inheriting placeholders included), xfrm removal,
            renames that collide with future placeholder names, deletions, text boxes, and a
            malformed stream of out-of-range indices and values)
 oracle     the property's own statement evaluated on the real XML and on what the public API
@@ -29,7 +29,7 @@ ATTRS = ("left", "top", "width", "height")
 TB = [
     "tx/tx_c13.py (translator: tuple / dict literals inside functions read from the AST, enum members and p:ph defaults from the live classes, template trees from the live constructors); fail-closed via n_unmodelled",
     "lxml xpath //@id and //p:cNvPr/@name, str %-formatting of '%s %d', python sorted() stability and list membership are modelled in model/Placeholder.v (tied by this correspondence, not verified)",
-    "ST_Coordinate / ST_PositiveCoordinate ranges and the TextBox base name are transcribed by hand in the model (exercised by the correspondence)",
+    "ST_Coordinate / ST_PositiveCoordinate ranges, the TextBox base name, and the dict order (left, top, width, height) and evaluation order of _InheritsDimensions._set_dimension together with which proxy class each collection hands out are transcribed by hand in the model (exercised by the correspondence)",
     "the oracle reads p:ph attributes and a:xfrm with raw lxml calls and applies the schema defaults (type obj, idx 0, orient horz, sz full) itself",
 ]
 ASSUME = [
@@ -40,7 +40,9 @@ ASSUME = [
     "slides present in a corpus deck before the case starts are opaque to the model (only their layout reference is modelled); the oracle checks them byte-for-byte",
     "shape ids and names inside group shapes are not modelled (no case adds a group to a new slide)",
     "python ints only; negative list indices are not generated",
-    "the property speaks about geometry until overridden: what an ACCEPTED setter does to the partner dimension (setting left on a placeholder without a:off creates a:off with y = 0, so top stops being inherited) is modelled, proved (C13_set_own) and tied by the correspondence, but not judged by the oracle; a REFUSED value leaves the shape untouched (C13_set_rejected), which the oracle does check (the four dimensions read the same before and after)",
+    "the property speaks about geometry until overridden: an ACCEPTED assignment to one dimension of a slide / notes-slide placeholder overrides that dimension only; the oracle checks that the other three keep reporting the value they reported (C13_slide_set_keeps, C13_notes_set_keeps, C13_step_set_slide_geom); a dimension for which neither layout nor master gives anything reads None before and may read 0 afterwards (exactly when its partner in a:off / a:ext was written, C13_set_dim_eff): modelled, proved and tied by the correspondence, not judged by the oracle; what an assignment does to layout, master and notes-master placeholders (a master placeholder has the plain setter: the partner dimension becomes an own 0, C13_set_own) is likewise modelled, proved, tied and not judged",
+    "a REFUSED value leaves the shape untouched (C13_set_dim_err, C13_set_rejected), which the oracle checks (the four dimensions read the same before and after); when an acceptable value raises all the same the oracle requires the three dimensions that were not named to read as before",
+    "sizes on layouts and masters are non-negative, as the schema requires (ST_PositiveCoordinate; true of every deck under /repo): a placeholder inheriting e.g. a negative height reports it, and the first assignment to such a placeholder raises ValueError while writing the displaced inherited values, leaving those written so far in place (third case of C13_set_dim_err, C13_set_dim_partial_example); modelled, proved, tied by two directed histories, and not judged by the oracle (class schema-invalid-inherited)",
 ]
 
 _META = None
@@ -403,7 +405,7 @@ class Deck:
                             oracle.after_refused_set(self, sh, attr, v, before, [self.geom(sh, a_) for a_ in ATTRS], op)
                         raise
                     if oracle:
-                        oracle.after_set(self, sh, attr, v, op)
+                        oracle.after_set(self, sh, k, attr, v, before, [self.geom(sh, a_) for a_ in ATTRS], op)
                 elif e == "C":
                     spPr = sh._element.find(P + "spPr")
                     x = None if spPr is None else spPr.find(A + "xfrm")
@@ -622,18 +624,49 @@ class Oracle:
         if name in before:
             self.bad("clone_placeholder:name", "clone_placeholder named the new placeholder %r, a name already used on the slide (%r)" % (name, before), op)
 
-    def after_set(self, d, sh, attr, v, op):
-        try:
-            got = getattr(sh, attr)
-        except Exception as e:  # noqa
-            got = repr(e)
-        if got != v:
-            self.bad("set:%s" % attr, "after %s = %d the shape reports %r" % (attr, v, got), op)
+    def after_set(self, d, sh, kind, attr, v, before, after, op):
+        """An accepted assignment overrides the dimension it names and nothing else: the shape reports the
+        assigned value, and a placeholder of a slide or of a notes slide keeps reporting, for each of the
+        other three, the position / size it reported (its layout counterpart's, the master's, or an earlier
+        override).  A dimension for which nothing is inherited (it read None) is not judged."""
+        i = ATTRS.index(attr)
+        if after[i] != "ok:%d" % v:
+            self.bad("set:%s" % attr, "after %s = %d the shape reports %s" % (attr, v, after[i]), op)
+        if kind in ("s", "n") and raw_ph(sh._element) is not None:
+            for j, (x, y) in enumerate(zip(before, after)):
+                if j != i and x.startswith("ok:") and x != "ok:None" and y != x:
+                    self.bad("set-displaced:%s" % ATTRS[j],
+                             "%s = %d was assigned to placeholder %r; %s was never overridden, yet it read %s before and reads %s now (left/top/width/height before %r, after %r)"
+                             % (attr, v, sh.name, ATTRS[j], x, y, before, after), op)
+
+    @staticmethod
+    def in_range(j, text):
+        """Whether a reported dimension (text form ok:<int>) lies in ST_Coordinate / ST_PositiveCoordinate."""
+        return (MINC if j < 2 else 0) <= int(text[3:]) <= MAXC
 
     def after_refused_set(self, d, sh, attr, v, before, after, op):
-        """a refused assignment must not override anything: the shape reports what it reported before"""
-        if before != after:
-            self.bad("set-refused:%s" % attr, "%s = %d was refused, yet left/top/width/height changed from %r to %r" % (attr, v, before, after), op)
+        """A refused assignment overrides nothing.  When the VALUE is refused the shape reports what it
+        reported before, in all four dimensions.  When the value itself is acceptable and an exception is
+        raised all the same, the named dimension may read the assigned value; the other three, where they
+        read a value before, must still read it.  Not judged: a shape that already reported a dimension
+        outside the schema's range (inherited from a layout or master with e.g. a negative height), the one
+        situation in which writing the displaced inherited values can raise."""
+        i = ATTRS.index(attr)
+        if not self.in_range(i, "ok:%d" % v):
+            if before != after:
+                self.bad("set-refused:%s" % attr, "%s = %d was refused, yet left/top/width/height changed from %r to %r" % (attr, v, before, after), op)
+            return
+        valued = [j for j, x in enumerate(before) if x.startswith("ok:") and x != "ok:None"]
+        if any(not self.in_range(j, before[j]) for j in valued if j != i):
+            self.classes.add("schema-invalid-inherited")
+            return
+        for j, (x, y) in enumerate(zip(before, after)):
+            if x == y or (j == i and y == "ok:%d" % v):
+                continue
+            if j != i and j not in valued:
+                continue
+            self.bad("set-raised:%s" % attr, "%s = %d raised, yet %s changed from %s to %s (left/top/width/height before %r, after %r)"
+                     % (attr, v, ATTRS[j], x, y, before, after), op)
 
     def finish(self, d):
         pass
@@ -871,6 +904,28 @@ def gen_cases(tier, rng):
         cases.append(("directed", {"deck": "default", "ops": [
             "A %d" % lay, "E s 0 0 R " + nm(ren), "P 0 %d 0" % lay, "P 0 %d 1" % lay, "E s 0 1 D", "P 0 %d 2" % lay,
             "E s 0 0 R " + nm("Title 4"), "E s 0 2 R " + nm("Title 5"), "P 0 %d 0" % lay, "X 0 1 2 3 4", "P 0 1 0", "P 0 %d 1" % lay]}))
+    # directed assignment histories: the first position or size given to an inheriting placeholder
+    # (slide, layout, notes slide) must leave its other three dimensions reading as before; refused values
+    # before and after; inherited values that are absent (None) for one pair or for everything; master and
+    # notes-master placeholders (plain setter); layouts / masters carrying a schema-invalid negative size
+    def ph_spec(sid, t, idx=None, off=None, ext=None):
+        return {"id": sid, "name": "p%d" % sid, "type": t, "idx": idx, "off": off, "ext": ext, "tx": True}
+    cases.append(("directed", {"deck": "default", "pop": {"layout": [6, [
+        ph_spec(2, "title"), ph_spec(3, "body", 1), ph_spec(4, "pic", 2, off=(5, 6)), ph_spec(5, "obj", 3, ext=(7, 8))]]},
+        "ops": ["A 6", "E s 0 0 S 0 5", "E s 0 0 S 3 9", "E s 0 1 S 2 -1", "E s 0 1 S 2 5", "E s 0 2 S 3 11", "E s 0 3 S 1 -4",
+                "E l 6 1 S 1 7", "E l 6 2 S 2 3", "A 6", "E s 1 1 S 2 100", "N 0", "E n 0 0 S 0 5", "E n 0 1 S 3 7", "E n 0 2 S 1 8"]}))
+    cases.append(("directed", {"deck": "default", "pop": {
+        "master": [ph_spec(2, "title", off=(10, 20)), ph_spec(3, "body", 1, ext=(30, 40))],
+        "layout": [6, [ph_spec(2, "title"), ph_spec(3, "body", 1), ph_spec(4, "dt", 10)]]},
+        "ops": ["A 6", "E s 0 0 S 3 9", "E s 0 1 S 0 3", "E l 6 0 S 1 7", "E l 6 2 S 0 1", "A 6", "E s 1 0 S 0 3", "E s 1 1 S 3 2",
+                "E m 0 0 S 2 6", "E m 0 1 S 1 -5", "A 6"]}))
+    cases.append(("directed", {"deck": "default", "pop": {
+        "master": [ph_spec(2, "title", off=(10, 20), ext=(30, 40)), ph_spec(3, "body", 1, off=(3, 4), ext=(8, -9))],
+        "layout": [6, [ph_spec(2, "title", off=(1, 2), ext=(-5, 7)), ph_spec(3, "body", 1)]]},
+        "ops": ["A 6", "E s 0 0 S 0 9", "E s 0 0 S 2 4", "E s 0 0 S 0 8", "E s 0 1 S 0 1", "E s 0 1 S 3 6", "E l 6 1 S 1 2", "A 6"]}))
+    cases.append(("directed", {"deck": "default", "pop": {
+        "nm": [ph_spec(2, "sldImg", 2, off=(1, 2)), ph_spec(3, "body", 3, ext=(3, 4)), ph_spec(4, "sldNum", 5)]},
+        "ops": ["A 0", "N 0", "E n 0 0 S 2 5", "E n 0 1 S 0 6", "E n 0 2 S 3 7", "E n 0 2 S 0 -27273042329601", "E k 0 0 S 3 9", "E k 0 1 S 0 2", "A 0", "N 1"]}))
     n_gen = 500 if tier == "quick" else 5000
     for i in range(n_gen):
         pop = {}
@@ -1060,7 +1115,7 @@ def translate_quiet():
 
 CLAIM = {
     "tech": "Coq proof over a Gallina model of slide/notes creation from layouts (placeholder cloning, naming, inherited geometry) generic in the literal tables, which a translator re-extracts from the source each run; extracted-model correspondence on every corpus layout and generated layouts + independent oracle",
-    "text": "39 theorems closed under the global context, for ANY tables and ANY deck state: the new slide's placeholders mirror the layout's non-latent ones (type, idx, orientation, size, order), names and ids are fresh (the naming loop's fuel is proved sufficient), geometry is inherited from the first layout placeholder with the same idx (own value after an accepted set; a refused set raises ValueError and leaves the shape untouched, so it keeps inheriting), the slide is last and related to its layout, everything else is unchanged, notes slides mirror the notes master; the exact guard under which add_slide / the geometry getters raise KeyError is characterised from the regenerated tables (C13_partial_maps_exact). The model is tied to slide.py / shapetree.py / placeholder.py by running histories on all 177 corpus layouts and ~500 generated layout populations on the real library and on the extracted model (0 diffs), and by an oracle on raw lxml.",
+    "text": "54 theorems closed under the global context, for ANY tables and ANY deck state: the new slide's placeholders mirror the layout's non-latent ones (type, idx, orientation, size, order), names and ids are fresh (the naming loop's fuel is proved sufficient), geometry is inherited from the first layout placeholder with the same idx until overridden: an accepted assignment to one dimension of a slide, layout or notes-slide placeholder (_set_dimension, modelled with its evaluation order) makes that dimension report the assigned value while the other three report exactly what they reported and everything else in the deck is unchanged, under the exact guard proved equivalent to acceptance (value in range, inherited lookups do not raise, inherited values in range); a refused value or a raising lookup leaves the deck untouched; a dimension with nothing to inherit reads 0 exactly when its partner was written; master and notes-master placeholders keep the plain element setter; the slide is last and related to its layout, everything else is unchanged, notes slides mirror the notes master; the exact guard under which add_slide / the geometry getters raise KeyError is characterised from the regenerated tables (C13_partial_maps_exact). The model is tied to slide.py / shapetree.py / placeholder.py by running histories on all 177 corpus layouts and ~500 generated layout populations on the real library and on the extracted model (0 diffs), and by an oracle on raw lxml.",
     "note": "tables (latent types, base names, layout->master type map, txBody types, templates) come from tx/tx_c13.py (trusted to transcribe, fail-closed); non-sp placeholders on layouts, shapes inside groups and damaged packages (missing_rels_item.pptx) are outside the model; duplicate idx within one layout is the property's side condition (first match wins, proved and exercised).",
     "ref": "6/C13",
 }
